@@ -409,3 +409,73 @@ Proof.
       apply Z.leb_le in L. rewrite C, E, L in R. discriminate.
     + apply Bool.eqb_prop in R. rewrite <- bare_schemeb_spec, <- http_shortb_spec, R. tauto.
 Qed.
+
+(** ** the usual case is inside the domain: instance IRIs that all start with
+    [http://] or [https://] followed by a character that is neither a
+    separator nor (ill-formed UTF-8) a continuation byte *)
+Definition http_family (i : str) : Prop :=
+  exists x r, (i = Str "http://" ++ x :: r \/ i = Str "https://" ++ x :: r) /\ ~ is_sep x /\ is_cont x = false.
+
+Lemma pylen_cons x t : pylen (x :: t) = (if is_cont x then 0 else 1) + pylen t.
+Proof. unfold pylen. cbn. destruct (is_cont x); cbn [negb List.length]; lia. Qed.
+
+Lemma is_sep_not_cont c : is_sep c -> is_cont c = false.
+Proof. intros [-> | [-> | ->]]; reflexivity. Qed.
+
+Lemma coincide_on_scheme_prefixes P s :
+  forallb (fun s => negb (ends_with_sepb s && (3 <=? pylen s)) || Bool.eqb (bare_schemeb s) (http_shortb s))
+          (prefixes P) = true ->
+  prefix s P -> ends_with_sep s -> 3 <= pylen s -> (bare_scheme s <-> http_short s).
+Proof.
+  intros F Ps E L. rewrite forallb_forall in F. specialize (F s (prefix_in_prefixes _ _ Ps)).
+  apply ends_with_sepb_spec in E. apply Z.leb_le in L. rewrite E, L in F. cbn in F.
+  apply Bool.eqb_prop in F. rewrite <- bare_schemeb_spec, <- http_shortb_spec, F. tauto.
+Qed.
+
+Lemma beyond_scheme P x r s :
+  prefix s (P ++ x :: r) -> (List.length P < List.length s)%nat -> ends_with_sep s -> ~ is_sep x ->
+  exists t0 c, s = P ++ x :: t0 ++ [c] /\ is_sep c.
+Proof.
+  intros Ps Ln (s0 & c & -> & Sc) Nx.
+  assert (PP : prefix P (s0 ++ [c])).
+  { eapply prefix_comparable; [exists (x :: r); reflexivity | exact Ps | lia]. }
+  destruct PP as [t Ht]. rewrite Ht in Ps. destruct Ps as [r' Hr]. rewrite <- app_assoc in Hr.
+  apply app_inv_head in Hr.
+  destruct t as [|y t]; [rewrite Ht, app_nil_r in Ln; lia|].
+  cbn in Hr. inversion Hr; subst y.
+  destruct t as [|z t].
+  - exfalso. apply app_inj_tail in Ht. destruct Ht as [_ ->]. contradiction.
+  - assert (exists t0, z :: t = t0 ++ [c]) as [t0 Et].
+    { change (P ++ x :: z :: t) with (P ++ [x] ++ z :: t) in Ht.
+      destruct (exists_last (l := z :: t)) as (t0 & c' & Et); [discriminate|].
+      rewrite Et in Ht. rewrite !app_assoc in Ht. apply app_inj_tail in Ht. destruct Ht as [_ ->]. now exists t0. }
+    exists t0, c. rewrite Ht, Et. split; [reflexivity | assumption].
+Qed.
+
+Lemma http_family_in_dom iris : iris <> [] -> (forall i, In i iris -> http_family i) -> C17_dom iris.
+Proof.
+  intros NE F. split.
+  - split; [assumption|]. intros i Hi [r Hr]. destruct (F i Hi) as (x & r' & [-> | ->] & _); discriminate.
+  - intros s C E L. destruct iris as [|i0 l]; [contradiction|].
+    destruct (F i0 (or_introl eq_refl)) as (x & r & Hi0 & Nx & Cx).
+    assert (Ps : prefix s i0) by (apply C; now left).
+    destruct Hi0 as [-> | ->].
+    + destruct (Nat.le_gt_cases (List.length s) (List.length (Str "http://"))) as [Le | Gt].
+      * apply (coincide_on_scheme_prefixes (Str "http://")); try assumption; [vm_compute; reflexivity|].
+        eapply prefix_comparable; [exact Ps | exists (x :: r); reflexivity | exact Le].
+      * destruct (beyond_scheme _ _ _ _ Ps Gt E Nx) as (t0 & c & -> & Sc).
+        split.
+        -- intros B. apply bare_schemeb_spec in B. cbn in B. discriminate.
+        -- intros [_ Hl]. exfalso. change (Str "http://" ++ x :: t0 ++ [c]) with (Str "http://" ++ [x] ++ t0 ++ [c]) in Hl.
+           rewrite !pylen_app, !pylen_cons, Cx, (is_sep_not_cont c Sc) in Hl.
+           pose proof (pylen_nonneg t0). change (pylen (Str "http://")) with 7 in Hl. change (pylen []) with 0 in Hl. lia.
+    + destruct (Nat.le_gt_cases (List.length s) (List.length (Str "https://"))) as [Le | Gt].
+      * apply (coincide_on_scheme_prefixes (Str "https://")); try assumption; [vm_compute; reflexivity|].
+        eapply prefix_comparable; [exact Ps | exists (x :: r); reflexivity | exact Le].
+      * destruct (beyond_scheme _ _ _ _ Ps Gt E Nx) as (t0 & c & -> & Sc).
+        split.
+        -- intros B. apply bare_schemeb_spec in B. cbn in B. discriminate.
+        -- intros [_ Hl]. exfalso. change (Str "https://" ++ x :: t0 ++ [c]) with (Str "https://" ++ [x] ++ t0 ++ [c]) in Hl.
+           rewrite !pylen_app, !pylen_cons, Cx, (is_sep_not_cont c Sc) in Hl.
+           pose proof (pylen_nonneg t0). change (pylen (Str "https://")) with 8 in Hl. change (pylen []) with 0 in Hl. lia.
+Qed.
